@@ -11,6 +11,8 @@ RULE = ("float/int arrays of 1-4 dims with numeric labels stored increasing / de
         "interp_like over templates. class = (variant, ndim, axis position, order, #nodes, where points fall, fills, data kind); trivial = none")
 ANCHORS = ["transform.interp_axis", "transform._interp_internal_get_weights", "transform._interp_internal_from_weight",
            "transform.interp_like", "dataset.interp_axis"]
+# entry points the workload calls itself; the other anchors are helpers behind them (counted as evidence only)
+ANCHORS_REQUIRED = ["transform.interp_axis", "transform.interp_like", "dataset.interp_axis"]
 FLOORS = {"quick": {"evaluations": 2500, "distinct": 800, "outcome:nodes-exact": 1500, "outcome:out-of-range": 1000},
           "thorough": {"evaluations": 50000, "distinct": 3000}}
 
